@@ -11,6 +11,8 @@ representation that can reach them):
             representation (lazy fill-in must come first, whatever the order of specifiers).
  RF1-slot   the overloaded slot `d` (day-of-month / day-of-year, tag flags.d_dcnt_p) is never
             overwritten with the other meaning while its tag still announces day-of-year.
+ RF11-order every value read of the lazily filled / overloaded month and day slots in the printers comes after the
+            fill-in chain of its own specifier (otherwise the text depends on the specifiers printed before).
  RF2-bom    Hijri month-begin table: strictly increasing, steps of 29/30 days, agrees with data/ummulqura.tab.
 """
 import os
@@ -299,6 +301,84 @@ def check(P, R, tier):
     R.floor("RF11-fill", "slot print sites", nfill, 8)
 
     check_bom(P, R)
+    check_slot_reads(P, R)
+
+
+FILLS = {"__strfd_get_md": {"m", "d"}, "__strfd_get_m": {"m"}, "__strfd_get_d": {"d"}}
+
+
+def check_slot_reads(P, R):
+    """RF11-order: the month and day slots of the print record are filled lazily, and the day slot is overloaded (day of the year
+    for year-day values until the first month/day specifier overwrites it).  What a read of such a slot yields therefore depends on
+    the specifiers printed before -- unless the read comes after the lazy fill-in chain of its own specifier.  Every value read of
+    `d->m` / `d->d` in the printers must be preceded, in its own case, by the if-chain that calls the fill functions."""
+    from core import walk
+    rule = "RF11-order"
+    tu = P.tu("libdut_a-date-core.o")
+    n = 0
+    for fname in ("__strfd_card", "__strfd_rom"):
+        fn = tu.func(fname)
+        if fn is None:
+            raise AnalysisBroken("%s vanished" % fname)
+        rec = [p_ for p_ in fn.params if "strpd_s" in (fn.tu.types[p_["t"]].get("s") or "")]
+        if len(rec) != 1:
+            raise AnalysisBroken("%s: print-record parameter not found" % fname)
+        recd = rec[0]["d"]
+        for x in fn.walk():
+            if x.get("k") != "MemberExpr" or x.get("n") not in ("m", "d"):
+                continue
+            from core import member_path
+            b, path = member_path(x)
+            if b is None or b.get("k") != "DeclRefExpr" or b.get("d") != recd or path != [x["n"]]:
+                continue
+            slot = x["n"]
+            # not a value read: assignment target, or part of a fill test
+            par = fn.parent(x)
+            while par is not None and par.get("k") in ("ImplicitCastExpr", "ParenExpr", "CStyleCastExpr"):
+                par = fn.parent(par)
+            if par is not None and par.get("k") == "BinaryOperator" and par.get("op") == "=" and any(y is x for y in walk(par["c"][0])):
+                continue
+            anc, child, in_test = fn.parent(x), x, False
+            while anc is not None:
+                if anc.get("k") == "IfStmt" and any(y is x for y in walk(anc["c"][0])):
+                    if any(y.get("k") == "CallExpr" and y.get("callee") in FILLS for y in walk(anc)):
+                        in_test = True
+                        break
+                anc = fn.parent(anc)
+            if in_test:
+                continue
+            n += 1
+            # an earlier statement of an enclosing block holds the fill chain for this slot
+            ok = False
+            child, anc = x, fn.parent(x)
+            while anc is not None and not ok:
+                sibs = []
+                if anc.get("k") == "CompoundStmt":
+                    gp = fn.parent(anc)
+                    if gp is not None and gp.get("k") == "SwitchStmt":
+                        # the statements of the case the read belongs to (clang nests only the first statement under the label)
+                        from core import switch_cases
+                        for g in switch_cases(gp):
+                            if any(sb is child or any(y is child for y in walk(sb)) for sb in g["stmts"]):
+                                sibs = g["stmts"]
+                    else:
+                        sibs = kids(anc)
+                for sb in sibs:
+                    if sb is child or any(y is child for y in walk(sb)):
+                        break
+                    if sb.get("k") == "IfStmt" and any(y.get("k") == "CallExpr" and slot in FILLS.get(y.get("callee"), ()) for y in walk(sb)):
+                        ok = True
+                        break
+                child, anc = anc, fn.parent(anc)
+            site = "%s: read of d->%s" % (fname, slot)
+            if ok:
+                R.ob(rule, "%s at %s follows the fill-in chain of its specifier" % (site, fn.where(x)), True)
+            else:
+                R.finding(rule, fn, "%s in `%s`" % (site, expr_text(fn.parent(x))[:40]), "the %s slot of the print record is read without the "
+                          "lazy fill-in chain of this specifier before it: what it holds depends on the specifiers printed earlier (for a "
+                          "year-day value the day slot is the day of the year until a month/day specifier overwrites it)" %
+                          ("day" if slot == "d" else "month"), x)
+    R.floor(rule, "value reads of the lazily filled slots in the printers", n, 8)
 
 
 def _case_of(fn, n):
